@@ -402,3 +402,17 @@ package dotgit
 //gvc:  sink Remove#2 requires [C16] hashref: ref != nil ==> ref.t == 1
 //gvc:  sink Remove#2 requires [C14] loose: it2 < numLooseRefs
 //gvc:end
+
+// packedRef (C16: a check-and-set compares against the reference's current
+// value; other clients of the repository rewrite packed-refs). A packed value
+// is answered only from a scan of packed-refs made by this very call: a
+// remembered parse, however it is invalidated (size, modification time), can
+// be older than the file another client has just replaced.
+//gvc:func (*DotGit).packedRef
+//gvc:  props C16
+//gvc:  theory int
+//gvc:  opt coarse
+//gvc:  opt frame args
+//gvc:  results ref err
+//gvc:  ensures fromfile: err == nil ==> calls("findPackedRefs") == 1 && lastres("findPackedRefs") == nil
+//gvc:end
